@@ -97,6 +97,7 @@ type c20 struct {
 }
 
 func runC20(r *Run) {
+	c20cur = nil
 	x := &c20{r: r, byField: map[*types.Var]*c20Table{}, limitCtors: map[*types.Func]bool{}, callSites: map[*types.Func][]c20Site{},
 		escapes: map[*types.Func]bool{}, funcOf: map[*types.Func]*FuncInfo{}, visiting: map[string]bool{}}
 	x.comp, x.rt = r.P.Pkg("internal/compiler"), r.P.Pkg("internal/runtime")
@@ -142,7 +143,11 @@ func runC20(r *Run) {
 	x.ruleR2()
 	x.ruleR3()
 	x.ruleR4()
+	c20cur = x
 }
+
+// c20cur is the analysis state of the last run, for the rules hooked after runC20 (c20r6.go …).
+var c20cur *c20
 
 func c20IsPtrTo(t types.Type, n *types.Named) bool {
 	p, ok := t.(*types.Pointer)
